@@ -45,17 +45,22 @@ class IdRecorder:
         self.flavour = flavour
         self.salt = salt & 0xFFFFFFFF
         self.serials = 0
+        self.by_obj = {}
         self.log = []  # (generator serial, id handed out)
 
     def register(self, gen):
-        gen.__dict__["_sim_serial"] = self.serials
+        self.by_obj[id(gen)] = (self.serials, gen)  # strong reference: id() stays unique for the run
         self.serials += 1
 
+    def serial_of(self, gen):
+        e = self.by_obj.get(id(gen))
+        return e[0] if e is not None and e[1] is gen else None
+
     def draw(self, gen, value, ctx):
-        serial = gen.__dict__.get("_sim_serial")
+        serial = self.serial_of(gen)
         if serial is None:
             self.register(gen)
-            serial = gen.__dict__["_sim_serial"]
+            serial = self.serial_of(gen)
         out = value
         if self.flavour == "opaque" and isinstance(value, str):
             try:
@@ -258,7 +263,7 @@ def install():
 
     orig_read_token = gp.Parser.__dict__.get("read_token")
     if orig_read_token is not None:
-        def read_token(self, context):
+        def read_token(self, context, *a, **k):
             env = ENV
             if env is not None:
                 ctx = cur_ctx()
@@ -267,7 +272,7 @@ def install():
                 k = env.kernel
                 if k is not None:
                     k.yield_point("tok")
-            return orig_read_token(self, context)
+            return orig_read_token(self, context, *a, **k)
 
         gp.Parser.read_token = read_token
         GATE = "read_token"
@@ -292,17 +297,17 @@ def install():
 
     orig_match = gp.Parser.__dict__.get("match_token")
     if orig_match is not None:
-        def match_token(self, state, token, context):
+        def match_token(self, *a, **k):
             env = ENV
             if env is not None:
                 try:
                     ctx = cur_ctx()
-                    ctx.obs = (state,) + _matcher_flags(context)
+                    ctx.obs = (a[0],) + _matcher_flags(a[2])
                     if ctx.states is not None:
                         ctx.states.add(ctx.obs)
                 except Exception:  # noqa: BLE001 - observation must never influence a verdict
                     pass
-            return orig_match(self, state, token, context)
+            return orig_match(self, *a, **k)
 
         gp.Parser.match_token = match_token
         info["probes"].append("match_token")
